@@ -103,6 +103,10 @@ Definition oa (pos byte : int) (e : rerr) : alt :=           (* open failed *)
   mkAlt (-2) (int_to_N pos) (int_to_N byte) 0 (AOpenErr e) 0.
 Definition pa (pos byte off : int) (e : rerr) : alt :=       (* postings list read failed *)
   mkAlt (-3) (int_to_N pos) (int_to_N byte) (int_to_N off) (APostings (RErr e)) 0.
+(* numbers as primitive integers (|z| < 2^62; the int64 extremes stay decimal literals) *)
+Definition iz (i : int) : Z := Uint63.to_Z i.
+Definition izn (i : int) : Z := (- Uint63.to_Z i)%Z.
+Definition inn (i : int) : N := int_to_N i.
 (* reference lists as primitive integers *)
 Definition rl (l : list int) : list N := map int_to_N l.
 
